@@ -206,11 +206,23 @@ func (r *Reader) BitString(lb, ub int, ext bool) ([]byte, int) {
 }
 
 func (r *Reader) PrintableString(lb, ub int, ext bool) string {
-	r.extBit(ext, "PrintableString")
-	n := r.SizeLength(lb, ub)
-	if ub < 0 || ub*8 > 16 {
+	var n int
+	if ext && r.Bits(1) == 1 {
+		// size outside the extension root: a general length determinant, then the characters, octet
+		// aligned (X.691 27.5.3 / 30.6); a size inside the root must not be sent this way
+		n = r.Length()
+		if r.Err == nil && ub >= 0 && n >= lb && n <= ub {
+			r.fail("PrintableString: size %d lies in the root %d..%d but the extension bit is set", n, lb, ub)
+		}
 		if n > 0 {
 			r.Align()
+		}
+	} else {
+		n = r.SizeLength(lb, ub)
+		if ub < 0 || ub*8 > 16 {
+			if n > 0 {
+				r.Align()
+			}
 		}
 	}
 	b := r.Octets(n)
